@@ -42,12 +42,12 @@ Proof.
 Qed.
 
 (* ---- the defective socket-option variant: isinstance(True, int) ---- *)
-Definition vr_sock_bool : variant :=
-  {| vr_hex_z := true; vr_key_z := true; vr_sel_z := true; vr_hash_z := true; vr_interop_z := true;
-     vr_uuid_canon := true; vr_year_pad := true; vr_sel_upper := true; vr_ref_flip_unreg := true;
-     vr_parse_guard_custom := true; vr_ext_scan_guard := true; vr_detect_default := true; vr_d2s_ext_guard := true;
-     vr_toplevel_needs_slot := true; vr_ext_nonempty := true; vr_marking_flag := true;
-     vr_flag_from_stored := true; vr_sock_int := false; vr_ext_order_sorted := true |}.
+(* the witness variant: any variant with vr_sock_int = false that lets the request through; the
+   pinned one is used so that this file does not restate the variant record field by field *)
+Definition vr_sock_bool : variant := variant_pinned.
+
+Lemma vr_sock_bool_flag : vr_sock_int vr_sock_bool = false.
+Proof. reflexivity. Qed.
 
 (* the class table with the socket-option check in the form the translator reads from the source
    (either spelling of the check) *)
